@@ -13,6 +13,12 @@
          at most the last batch written (+ sentinel) — the same bound C16's producer_turn_body_exceeds_cap_by_last_batch_only
          decides. Replays: real servers + real client under a cap sweep (batch sizes following the counterexample), and
          per-batch resume tokens resumed on the same and on a second worker sharing only the token key.
+(b') xh: the same turn written through a response codec (``pa.CompressedOutputStream`` := pass-through holding back up to a
+         symbolic block): each batch's Arrow buffer size L (what ``OutputCollector.total_data_bytes`` counts; 0 = zero-row batch)
+         and its wire excess g over that (IPC framing + per-batch custom metadata) are independent symbolic quantities, plus an
+         optional log batch; a further produce iteration starts only while the bytes written so far do not exceed the cap.
+         Replay: real server/client with zstd and gzip negotiated, a 48-batch stream cycling through the counterexample's shapes
+         (and the same shapes with larger metadata tags), judged on the on-wire bytes of every continuation turn.
 (c) xh : ``HttpStreamSession._resume_token`` / ``seek_to_token`` / ``_token_metadata`` (real methods): whatever a session
          held before (own cursor, own call token from its own /init, preloaded batches, finished flag), after
          ``seek_to_token(blob)`` its next request carries exactly the blob's cursor AND the blob's call token, so a
@@ -40,7 +46,9 @@ _TICKS = 4
 BOUNDS = (
     "resume token: state/call byte strings <= 4 bytes, arbitrary blobs <= 8 bytes; producer: scripts of 1..%d data ticks "
     "(finish on the last data tick or on a tick of its own), framed sizes symbolic 8..4103, wire cap None or any int 0..4095, "
-    "one optional log batch on the first tick; compressed turn: same scripts, cap 1..4095, codec holding back 0..8192 bytes until flush/close" % _TICKS
+    "one optional log batch on the first tick; compressed turn: same scripts with each batch's Arrow buffer size (0..4095, 0 = zero-row batch) and its "
+    "wire excess over that (IPC framing + per-batch custom metadata, 8..4095) independent, one optional log batch on the first tick (thorough: on any one tick), cap 1..4095, "
+    "codec holding back 0..8192 bytes until flush/close" % _TICKS
 )
 OUTSIDE = (
     "response compression beyond its buffering contract (item compressed_turn_...: sizes pass 1:1, the codec only delays bytes; the compressed byte values, "
@@ -462,7 +470,7 @@ def resume_from_any_turn_yields_the_remainder(n: int, F0: int, F1: int, F2: int,
 #      compression setting ... all codecs")
 # ---------------------------------------------------------------------------
 
-_CODEC: dict = {"block": 0}
+_CODEC: dict = {"block": 0, "sink": None, "starts": []}
 
 
 class _CodecSink(M.FSink):
@@ -475,6 +483,7 @@ class _CodecSink(M.FSink):
         if not isinstance(under, M.FSink) or codec not in ("zstd", "gzip"):
             raise HarnessModelError("codec sink over a foreign buffer / unknown codec")
         self.__dict__.update(under=under, written=0, pending=0, log=under.log, closed_writers=0, closed=False)
+        _CODEC["sink"] = self
 
     @property
     def pos(self):  # type: ignore[no-untyped-def]
@@ -573,21 +582,181 @@ def _replay_codec_bound(args: dict) -> str | None:
     return None
 
 
-@cond(q=60, t=300, stubs=[*M._STUBS_D, "pa.CompressedOutputStream := pass-through that holds back up to `block` bytes until flush()/close()"],
+_WSCHEMA = _pa0.schema([_pa0.field("v", _pa0.int64())])
+_WREAL: dict = {"ticks": [(1, 8, False)]}
+_WCHARS = "abcdefghijklmnopqrstuvwxyzABCDEFGHIJKLMNOPQRSTUVWXYZ0123456789"
+
+
+@_dataclass
+class _WProd(_ProducerState):
+    """Real producer whose tick i emits ``rows`` random int64 rows (buffer size 8*rows; 0 rows = a zero-row batch)
+    tagged with ``tag`` random characters of per-batch custom metadata (wire bytes the buffer size does not count),
+    preceded by a client log message when ``log``."""
+
+    i: int = 0
+
+    def produce(self, out, ctx):  # type: ignore[no-untyped-def]
+        ticks = _WREAL["ticks"]
+        if self.i >= len(ticks):
+            out.finish()
+            return
+        rows, tag, log = ticks[self.i]
+        rng = _pyrandom.Random(1000 + self.i)
+        if log:
+            out.client_log(M.Level.INFO, "note " + "".join(rng.choice(_WCHARS) for _ in range(24)))
+        md = {"tag": "".join(rng.choice(_WCHARS) for _ in range(tag))} if tag else None
+        out.emit(_pa0.RecordBatch.from_pydict({"v": [rng.getrandbits(62) for _ in range(rows)]}, schema=_WSCHEMA), metadata=md)
+        self.i += 1
+
+
+class _WSvc(_Protocol):
+    def gen(self) -> _Stream[_WProd]: ...
+
+
+class _WImpl:
+    def gen(self) -> _Stream[_WProd]:
+        return _Stream(output_schema=_WSCHEMA, state=_WProd())
+
+
+_WSLACK = 64  # codec framing of the few blocks written after the last cap check (zstd: 3 B/block, gzip: 5 B/flush + 8 B trailer)
+
+
+def _wire_turns(cap, codec):  # type: ignore[no-untyped-def]
+    """Real server + real client over ``_WREAL``; returns (iterated (rows, tag length) sequence, [(path, on-wire body, content-encoding)])."""
+    from vgi_rpc.http import http_connect
+    from vgi_rpc.http._testing import make_sync_client
+    from vgi_rpc.rpc import RpcServer
+
+    client = make_sync_client(RpcServer(_WSvc, _WImpl()), token_key=b"k" * 32, max_response_bytes=cap, compression_level=1 if codec else None)
+    turns: list = []
+    raw_post = client._client.simulate_post
+
+    def tapped(path, **kw):  # type: ignore[no-untyped-def]
+        if codec and kw.get("headers") is not None:
+            kw["headers"] = {**{k: v for k, v in kw["headers"].items() if k.lower() != "accept-encoding"}, "Accept-Encoding": codec}
+        r = raw_post(path, **kw)
+        turns.append((path, bytes(r.content), (r.headers.get("content-encoding") or "").lower()))
+        return r
+
+    client._client.simulate_post = tapped  # type: ignore[method-assign]
+    seq: list = []
+    limit = len(_WREAL["ticks"]) + 4
+    with http_connect(_WSvc, client=client, compression_level=1 if codec else None) as proxy:
+        for ab in proxy.gen():
+            cm = ab.custom_metadata
+            tag = cm.get(b"tag") if cm is not None else None
+            seq.append((ab.batch.num_rows, len(tag) if tag else 0))
+            if len(seq) > limit:
+                break  # a stream that no longer ends
+    return seq, turns
+
+
+def _replay_codec_wire(args: dict) -> str | None:
+    """Real server, real client, zstd and gzip negotiated: a long producer stream whose batches cycle through the
+    counterexample's shapes (buffer size L_i -> L_i // 8 int64 rows, framing/metadata excess g_i -> a (g_i - 8)-character
+    per-batch metadata tag, the log tick), under the counterexample's cap and caps around the real per-tick wire size.
+    Judged on the bytes of each continuation turn with two or more data batches AS SENT: what was on the wire before the
+    turn's last data-producing iteration started (>= body - plaintext size of that iteration's messages, sentinel and EOS -
+    codec framing) must not exceed the cap.  The iterated sequence must be the uncompressed one for every codec and cap."""
+    if "L0" not in args:
+        return None
+    n = max(1, min(_TICKS, args["n"]))
+    exact = [(max(0, args["L%d" % i]) // 8, max(0, args["g%d" % i] - 8), args.get("logk") == i) for i in range(n)]
+    # once with the counterexample's shapes as they are, once with 32 more tag characters per batch (bare IPC framing repeats
+    # from batch to batch and compresses to almost nothing: the on-wire judgement below then has little to measure), once with
+    # the wire excess scaled up (the model counts bytes 1:1 from 8 up, a real message has ~200 B of framing before any tag: the
+    # solver's smallest excess that breaks the bound in the model is lost in that offset)
+    for shapes in (exact, [(r, t + 32, lg) for r, t, lg in exact], [(r, 16 * t + 512, lg) for r, t, lg in exact]):
+        r = _replay_codec_wire_shapes(args, shapes)
+        if r is not None:
+            return r
+    return None
+
+
+def _replay_codec_wire_shapes(args: dict, shapes: list) -> str | None:
+    from vgi_rpc._codec import Encoding, decompress
+    from vgi_rpc.metadata import LOG_LEVEL_KEY
+
+    n = len(shapes)
+    _WREAL["ticks"] = [shapes[j % n] for j in range(48)]
+    ref = [(r, t) for r, t, _ in _WREAL["ticks"]]
+    plain_seq, plain_turns = _wire_turns(1 << 26, None)
+    if plain_seq != ref:
+        return None  # the uncompressed, uncapped reference itself is off: not this item's judgement
+    per_tick = max(1, sum(len(w) for _, w, _ in plain_turns) // len(ref))
+    caps = list(dict.fromkeys(c for c in (args["wire_cap"], per_tick // 2, per_tick, 3 * per_tick, 8 * per_tick) if c >= 1))
+    encs = {e.value: e for e in Encoding}
+    for codec in ("zstd", "gzip"):
+        if codec not in encs:
+            continue
+        for cap in caps:
+            seq, turns = _wire_turns(cap, codec)
+            if seq != ref:
+                at = next((k for k, (a, b) in enumerate(zip(seq, ref)) if a != b), min(len(seq), len(ref)))
+                return (f"real producer of {len(ref)} batches iterated with Accept-Encoding: {codec}, max_response_bytes={cap}: client saw "
+                        f"{len(seq)} batches, the sequence differs from the uncompressed one at #{at}")
+            for path, body, enc in turns:
+                if not path.endswith("/exchange") or enc != codec:
+                    continue  # the init turn is not compressed in-stream; an uncompressed answer is the other items' business
+                plain = decompress(encs[codec], body)
+                ends = M._message_ends(plain)  # [schema, batch 0, batch 1, ...]
+                msgs = list(_pa0.ipc.open_stream(_pa0.BufferReader(plain)).iter_batches_with_custom_metadata())
+                capped = bool(msgs) and msgs[-1].custom_metadata is not None and msgs[-1].custom_metadata.get(STATE_KEY) is not None
+                # (a turn in which the stream finished is bound all the same: its body, too, exceeds the cap by at most the last batch)
+                is_log = [m.custom_metadata is not None and m.custom_metadata.get(LOG_LEVEL_KEY) is not None for m in (msgs[:-1] if capped else msgs)]
+                data = [j for j, lg in enumerate(is_log) if not lg]
+                if len(data) < 2:
+                    continue  # one produce iteration: a turn always makes progress, nothing to bound
+                start = data[-1]
+                while start > 0 and is_log[start - 1]:
+                    start -= 1  # log messages of the same (last) iteration
+                tail_plain = len(plain) - ends[start]
+                if len(body) > cap + tail_plain + _WSLACK:
+                    return (f"{codec}-compressed continuation turn under max_response_bytes={cap} (batches of {[r for r, _, _ in shapes]} int64 rows with "
+                            f"{[t for _, t, _ in shapes]}-character metadata tags): on-wire body is {len(body)} B with {len(data)} data batches; its last produce "
+                            f"iteration{' + sentinel' if capped else ''} + EOS are {tail_plain} B uncompressed, so that iteration started with >= {len(body) - tail_plain - _WSLACK} B "
+                            f"already on the wire (> cap): the body exceeds the cap by more than the last batch written")
+    return None
+
+
+def _replay_codec_any(args: dict) -> str | None:
+    return _replay_codec_wire(args) or _replay_codec_bound(args)
+
+
+_LOGK = pick(0, _TICKS - 1)  # tick that may carry a log batch (-1 = none)
+
+
+class _WState(M.ScriptState):
+    """The scripted state, additionally noting how many body bytes had been written (into the codec, or into the plain
+    buffer when the turn is not compressed) when each produce iteration started."""
+
+    def process(self, tick, out, ctx):  # type: ignore[no-untyped-def]
+        s = _CODEC["sink"]
+        sinks = M.HOLD["sinks"]
+        _CODEC["starts"].append(s.pos if s is not None else (sinks[0].pos if sinks else 0))
+        M.ScriptState.process(self, tick, out, ctx)
+
+
+@cond(q=120, t=400, stubs=[*M._STUBS_D, "pa.CompressedOutputStream := pass-through that holds back up to `block` bytes until flush()/close()"],
       encoded=[aps._run_http_producer_turn, wire._flush_collector],
-      bound="1..%d data ticks, framed sizes symbolic, any cap 1..4095, codec block buffer 0..8192 (0 = unbuffered)" % _TICKS,
-      replay=_replay_codec_bound, signature=lambda a, c: "C11:producer:compressed-turn-body-overshoots-cap")
-def compressed_turn_body_exceeds_cap_by_last_batch_only(n: int, F0: int, F1: int, F2: int, F3: int, fin_same: bool, wire_cap: int, block: int) -> bool:
+      bound="1..%d data ticks; per batch buffer size L 0..4095 and wire excess g (framing + custom metadata) 8..4095 independent, one optional log batch "
+            "on %s, any cap 1..4095, codec block buffer 0..8192 (0 = unbuffered)" % (_TICKS, pick("the first tick", "any one tick")),
+      replay=_replay_codec_any, signature=lambda a, c: "C11:producer:compressed-turn-body-overshoots-cap")
+def compressed_turn_body_exceeds_cap_by_last_batch_only(n: int, L0: int, g0: int, L1: int, g1: int, L2: int, g2: int, L3: int, g3: int, logk: int,
+                                                        fin_same: bool, wire_cap: int, block: int) -> bool:
     """
-    pre: 1 <= n <= _TICKS and 8 <= F0 <= 4103 and 8 <= F1 <= 4103 and 8 <= F2 <= 4103 and 8 <= F3 <= 4103
-    pre: 1 <= wire_cap <= 4095 and 0 <= block <= 8192
+    pre: 1 <= n <= _TICKS and 0 <= L0 <= 4095 and 0 <= L1 <= 4095 and 0 <= L2 <= 4095 and 0 <= L3 <= 4095
+    pre: 8 <= g0 <= 4095 and 8 <= g1 <= 4095 and 8 <= g2 <= 4095 and 8 <= g3 <= 4095
+    pre: 1 <= wire_cap <= 4095 and 0 <= block <= 8192 and -1 <= logk <= _LOGK
     post: _
     """
     M.reset()
-    _CODEC["block"] = block
-    script = [(F0 - 8, 8, 0), (F1 - 8, 8, 0), (F2 - 8, 8, 0), (F3 - 8, 8, 0)][:n]
+    _CODEC.update(block=block, sink=None, starts=[])
+    # a batch's Arrow buffer size L (what OutputCollector.total_data_bytes counts) and what it occupies in the stream
+    # (L + g: IPC framing, per-batch custom metadata) are independent; L = 0 is a zero-row batch
+    script = [(L0, g0, 1 if logk == 0 else 0), (L1, g1, 1 if logk == 1 else 0), (L2, g2, 1 if logk == 2 else 0), (L3, g3, 1 if logk == 3 else 0)][:n]
     app = M.FApp(M.FServer(None), wire_cap, None)
-    state = M.ScriptState(script, fin_same, 0)
+    state = _WState(script, fin_same, 0)
     outcome = M.FOutcome()
     tok = aps._current_response_codec.set("zstd")
     try:
@@ -601,9 +770,15 @@ def compressed_turn_body_exceeds_cap_by_last_batch_only(n: int, F0: int, F1: int
         aps._current_response_codec.reset(tok)
     if outcome.status != "ok":
         return False
-    # the body as it goes on the wire: every message that was written, in order (all of it flushed by close())
+    # a further produce iteration may start only while the body — every byte written so far, whether the codec has passed
+    # it on yet or not — does not yet exceed the cap (== cap admitted): the body then exceeds the cap by the last batch only
+    for st in _CODEC["starts"][1:]:
+        if st > wire_cap:
+            return False
+    # the body as it goes on the wire: every message that was written, in order (all of it flushed by close());
+    # "every response compression setting": the compressed turn delivers the emitted batches once each, in order
     pos = 0
-    data_seen = False
+    k = 0
     for e in blob.log:
         if e[0] == "schema":
             size = M.HOLD["H"]
@@ -612,11 +787,13 @@ def compressed_turn_body_exceeds_cap_by_last_batch_only(n: int, F0: int, F1: int
         else:
             size = e[1].F
             if e[1].kind == "data":
-                # a further data batch may be produced only while the body does not yet exceed the cap
-                if data_seen and pos > wire_cap:
+                if e[1].tag != k:
                     return False
-                data_seen = True
+                k += 1
         pos = pos + size
+    its = len(_CODEC["starts"])
+    if not (k == its or (k == n and not fin_same and its == n + 1)):
+        return False  # an iteration's data batch is missing from the body (the finish tick of its own emits none)
     if blob.n != pos:
         raise HarnessModelError("codec model: the finished body is not the sum of the written messages")
     return True
